@@ -1706,7 +1706,9 @@ class InTablePhase(Phase):
 
     # processing methods
     def processEOF(self):
-        if self.tree.openElements[-1].name != "html":
+        currentNode = self.tree.openElements[-1]
+        if (currentNode.name != "html" or
+                currentNode.namespace != self.tree.defaultNamespace):
             self.parser.parseError("eof-in-table")
         else:
             assert self.parser.innerHTML
